@@ -158,6 +158,9 @@ def extract_selected_variable_and_expression(symbolic_cls: Type, domain: Optiona
     elif domain and is_iterable(domain.domain):
         # a new source: the caller's From may be the source of other variables (of other types) as well.
         domain = From(filter(lambda v: isinstance(v, symbolic_cls), domain.domain))
+    elif domain and not isinstance(domain.domain, (SymbolicExpression, symbolic_cls)):
+        # a single value as the domain: the type filter applies to it as well (a value of the type stays the source itself).
+        domain = From(filter(lambda v: isinstance(v, symbolic_cls), [domain.domain]))
 
     var = Variable(symbolic_cls.__name__, symbolic_cls, _domain_source_=domain, _predicate_type_=predicate_type,
                    _is_indexed_=index_class_cache(symbolic_cls))
